@@ -17,7 +17,11 @@
 (*  delivered-without-end  s handed to a processor although End was never called *)
 (*  end-time-differs       two observations of the end time of s differ          *)
 (*  end-time-unknown/zero  the end time is not the one of any End call made      *)
-(*  torn-mutation          a mutation call is partly in the snapshot             *)
+(*  torn-mutation          a mutation call is partly in the snapshot (also: with *)
+(*                         full event/link queues -- cfg.lim entries recorded    *)
+(*                         beforehand -- the entries evicted from the FIFO and   *)
+(*                         the dropped counter disagree: an add is in the queue  *)
+(*                         but not in the counter, or vice versa)                *)
 (*  mutation-lost          a mutation that returned before any End call is       *)
 (*                         missing;  mutation-after-end: one called after an End *)
 (*                         returned is present;  mutation-unknown: never called  *)
@@ -55,6 +59,8 @@ Count(r, p) == IF p \in DOMAIN r.handed THEN r.handed[p] ELSE 0
 (* the discriminating context of a violation: used by the known-finding matcher *)
 V(m, s, kind, detail) == [kind |-> kind, span |-> s, rt |-> m.cfg.rt, hooks |-> m.cfg.hooks,
                           overlap |-> Sp(m, s).overlap, win |-> Sp(m, s).winOverlap, detail |-> detail]
+
+QueueOK(lim, miss, drop) == IF miss < lim THEN drop = miss ELSE drop >= lim
 
 (* Step(m, e) = <<next monitor state, set of violated clauses (records)>> *)
 Step(m, e) ==
@@ -109,7 +115,14 @@ Step(m, e) ==
            \cup (IF e.et > 0 /\ e.et \notin r.ts /\ (e.et < 100 \/ ~r.implicit)
                    THEN {V(m, e.span, "end-time-unknown", e.et)} ELSE {})
            \cup (IF e.partial # <<>> THEN {V(m, e.span, "torn-mutation", e.partial)} ELSE {})
-           \cup (IF ~(r.mustIn \subseteq full) THEN {V(m, e.span, "mutation-lost", r.mustIn \ full)} ELSE {})
+           \* with small limits a mutation that returned before End may have been evicted / dropped again
+           \cup (IF m.cfg.lim = 0 /\ ~(r.mustIn \subseteq full) THEN {V(m, e.span, "mutation-lost", r.mustIn \ full)} ELSE {})
+           \* FIFO: the oldest entries go first, so while one of the lim initial entries is left exactly the missing
+           \* ones were dropped; once all are gone at least lim were
+           \cup (IF m.cfg.lim > 0 /\ ~QueueOK(m.cfg.lim, e.evmiss, e.evdrop)
+                   THEN {V(m, e.span, "torn-mutation", <<"events", e.evmiss, e.evdrop>>)} ELSE {})
+           \cup (IF m.cfg.lim > 0 /\ ~QueueOK(m.cfg.lim, e.lkmiss, e.lkdrop)
+                   THEN {V(m, e.span, "torn-mutation", <<"links", e.lkmiss, e.lkdrop>>)} ELSE {})
            \cup (IF full \cap r.mustOut # {} THEN {V(m, e.span, "mutation-after-end", full \cap r.mustOut)} ELSE {})
            \cup (IF ~(full \subseteq r.called) THEN {V(m, e.span, "mutation-unknown", full \ r.called)} ELSE {})
            \cup (IF e.child < r.childMustIn \/ e.child > r.childEligible
@@ -130,6 +143,14 @@ Step(m, e) ==
               \cup (IF \E i \in 1..m.cfg.nprocs : i > Len(e.handed) \/ e.handed[i] = 0 THEN {B("not-delivered")} ELSE {})
               \cup (IF e.nets > 1 THEN {B("end-time-differs")} ELSE {})
               \cup (IF e.rec THEN {B("recording-after-end")} ELSE {})>>
+    [] e.ev = "Bulk2" ->     \* volume stress: one End and one call of each mutator at once on a span whose queues are full
+         LET B(kind, d) == [kind |-> kind, span |-> e.span, rt |-> m.cfg.rt, hooks |-> m.cfg.hooks,
+                            overlap |-> FALSE, win |-> FALSE, detail |-> d] IN
+         <<m, (IF e.handed > 1 THEN {B("delivered-twice", e.handed)} ELSE {})
+              \cup (IF e.handed = 0 THEN {B("not-delivered", 0)} ELSE {})
+              \cup (IF ~e.same THEN {B("snapshot-mutated", 1)} ELSE {})
+              \cup (IF e.handed > 0 /\ ~QueueOK(m.cfg.lim, e.evmiss, e.evdrop) THEN {B("torn-mutation", <<"events", e.evmiss, e.evdrop>>)} ELSE {})
+              \cup (IF e.handed > 0 /\ ~QueueOK(m.cfg.lim, e.lkmiss, e.lkdrop) THEN {B("torn-mutation", <<"links", e.lkmiss, e.lkdrop>>)} ELSE {})>>
     [] e.ev = "Panic" -> <<m, {V(m, e.span, "panic", e.proc)}>>
     [] e.ev = "Stuck" -> <<m, IF e.deadlock THEN {V(m, 0, "deadlock", e.procs)} ELSE {}>>
     [] OTHER -> <<m, {}>>
